@@ -218,6 +218,18 @@ func c12Expr(ctx *core.Ctx, idx int) core.Result {
 			t, e = gen.Bool, ast.Binary{Op: "==", L: c, R: c}
 		}
 		res.Tag("expr:same-operand-trees-with-effect")
+	} else if r.Chance(1, 12) {
+		// two operands that look alike on paper but are different trees: 2 / 2.0 / "2", a variable and the string spelling its name
+		prelude = append(prelude, ast.Assign{Name: "tnum", Value: il(int64(r.Range(3, 9)))}, ast.Assign{Name: "tname", Value: ast.StrLit{V: "joe"}})
+		switch r.Intn(3) {
+		case 0:
+			t, e = gen.Float, ast.Binary{Op: "+", L: ast.Binary{Op: "/", L: nm("tnum"), R: il(2)}, R: ast.Binary{Op: "/", L: nm("tnum"), R: ast.FloatLit{V: 2}}}
+		case 1:
+			t, e = gen.Str, ast.Binary{Op: "+", L: ast.Binary{Op: "+", L: nm("tname"), R: ast.StrLit{V: "?"}}, R: ast.Binary{Op: "+", L: ast.StrLit{V: "tname"}, R: ast.StrLit{V: "?"}}}
+		default:
+			t, e = gen.Str, ast.Binary{Op: "+", L: toa(ast.Binary{Op: "*", L: nm("tnum"), R: il(2)}), R: toa(ast.Binary{Op: "*", L: nm("tnum"), R: ast.FloatLit{V: 2}})}
+		}
+		res.Tag("expr:look-alike-operands")
 	}
 	res.Hash = core.Mix(sessionHash(prelude) ^ core.HashString(ast.Sexp(e)))
 	// the reference answer for the plain expression
